@@ -29,24 +29,34 @@ type c43Burst struct {
 	Data  []byte
 }
 
+// c43ParScript is what one goroutine of a "parallel" operation does with its
+// own identity: add, sign, list, replace, list, remove, sign, remove, list.
+type c43ParScript struct {
+	Ident    int
+	Comment1 string
+	Comment2 string
+	Data     []byte
+}
+
 type c43Op struct {
-	Kind       string     // add addMismatch remove removeAll lock unlock list sign signers ext burst tick
-	Ident      int        `json:",omitempty"`
-	Comment    string     `json:",omitempty"`
-	Lifetime   uint32     `json:",omitempty"`
-	Confirm    bool       `json:",omitempty"`
-	Ext        bool       `json:",omitempty"`
-	PtrForm    bool       `json:",omitempty"`
-	Pass       []byte     `json:",omitempty"`
-	Data       []byte     `json:",omitempty"`
-	Flags      uint32     `json:",omitempty"`
-	Plain      bool       `json:",omitempty"` // Sign instead of SignWithFlags(0)
-	AsAgentKey bool       `json:",omitempty"`
-	ExtType    string     `json:",omitempty"`
-	ExtBody    []byte     `json:",omitempty"`
-	SignerPick int        `json:",omitempty"`
-	Burst      []c43Burst `json:",omitempty"`
-	SleepMS    int        `json:",omitempty"`
+	Kind       string         // add addMismatch remove removeAll lock unlock list sign signers ext burst tick
+	Ident      int            `json:",omitempty"`
+	Comment    string         `json:",omitempty"`
+	Lifetime   uint32         `json:",omitempty"`
+	Confirm    bool           `json:",omitempty"`
+	Ext        bool           `json:",omitempty"`
+	PtrForm    bool           `json:",omitempty"`
+	Pass       []byte         `json:",omitempty"`
+	Data       []byte         `json:",omitempty"`
+	Flags      uint32         `json:",omitempty"`
+	Plain      bool           `json:",omitempty"` // Sign instead of SignWithFlags(0)
+	AsAgentKey bool           `json:",omitempty"`
+	ExtType    string         `json:",omitempty"`
+	ExtBody    []byte         `json:",omitempty"`
+	SignerPick int            `json:",omitempty"`
+	Burst      []c43Burst     `json:",omitempty"`
+	Par        []c43ParScript `json:",omitempty"`
+	SleepMS    int            `json:",omitempty"`
 }
 
 type c43History struct {
@@ -86,7 +96,8 @@ var c43OpTable = func() []int {
 	rep(50, 7)  // unlock
 	rep(40, 6)  // lock
 	rep(92, 4)  // signers
-	rep(98, 3)  // burst
+	rep(97, 3)  // burst
+	rep(99, 3)  // parallel scripts on disjoint identities
 	rep(95, 3)  // ext
 	rep(37, 2)  // removeAll
 	rep(24, 2)  // addMismatch
@@ -95,7 +106,7 @@ var c43OpTable = func() []int {
 	// kinds so that the weights survive whatever the index distribution is
 	out := make([]int, len(t))
 	for i := range t {
-		out[i] = t[(i*37)%len(t)] // len(t) = 92, coprime to 37
+		out[i] = t[(i*37)%len(t)] // len(t) = 95, coprime to 37
 	}
 	return out
 }()
@@ -200,7 +211,8 @@ func c43GenHistory(rt *rapid.T, modes []string, ticks, external bool) *c43Histor
 				op.Lifetime = uint32(rapid.IntRange(1, 2).Draw(rt, "short"))
 			}
 			if ticks && rapid.IntRange(0, 2).Draw(rt, "preferShort") != 0 {
-				op.Lifetime = uint32(rapid.IntRange(1, 2).Draw(rt, "short2"))
+				// mostly 1 s, so that one 1.1 s sleep takes several keys over their lifetime together
+				op.Lifetime = uint32(rapid.SampledFrom([]int{1, 1, 1, 2}).Draw(rt, "short2"))
 			}
 			if op.Lifetime > 0 && op.Lifetime <= 2 {
 				shortAdded = true
@@ -285,6 +297,24 @@ func c43GenHistory(rt *rapid.T, modes []string, ticks, external bool) *c43Histor
 				op.ExtType = "unknown-extension@verif.test"
 			}
 			op.ExtBody = rapid.SliceOfN(rapid.Byte(), 0, 40).Draw(rt, "extBody")
+		case k >= 99:
+			// several goroutines use the agent at once, each on its own key
+			op.Kind = "parallel"
+			np := rapid.IntRange(2, 5).Draw(rt, "parN")
+			usedKey := map[string]bool{}
+			for tries := 0; len(op.Par) < np && tries < 40; tries++ {
+				i := rapid.IntRange(0, len(c43IdentNames)-1).Draw(rt, "parIdent")
+				base := strings.TrimSuffix(c43IdentNames[i], "+cert")
+				if usedKey[base] || (external && strings.HasPrefix(base, "dsa")) {
+					continue
+				}
+				usedKey[base] = true
+				op.Par = append(op.Par, c43ParScript{Ident: i, Comment1: rapid.SampledFrom(c43Comments).Draw(rt, "parC1"), Comment2: fmt.Sprintf("second-%d", len(op.Par)),
+					Data: rapid.SliceOfN(rapid.Byte(), 1, 40).Draw(rt, "parData")})
+				if !simLocked {
+					delete(present, i)
+				}
+			}
 		default:
 			op.Kind = "burst"
 			nb := rapid.SampledFrom([]int{2, 3, 8, 40}).Draw(rt, "burstN")
@@ -296,6 +326,22 @@ func c43GenHistory(rt *rapid.T, modes []string, ticks, external bool) *c43Histor
 			op.Ident = rapid.SampledFrom(shortIdents).Draw(rt, "shortIdent")
 		}
 		h.Ops = append(h.Ops, op)
+		if ticks && op.Kind == "add" && op.Lifetime > 0 && op.Lifetime <= 2 && !op.Confirm && !op.Ext && rapid.IntRange(0, 1).Draw(rt, "shortRun") == 0 {
+			// neighbours in the agent's key list that expire together (or next to a key that stays)
+			more := rapid.IntRange(1, 3).Draw(rt, "shortRunLen")
+			for j := 0; j < more; j++ {
+				o := c43Op{Kind: "add", Ident: pick(), Comment: "neighbour", Lifetime: op.Lifetime}
+				if rapid.IntRange(0, 3).Draw(rt, "neighbourStays") == 0 {
+					o.Lifetime = 0
+				} else {
+					shortIdents = append(shortIdents, o.Ident)
+				}
+				if !simLocked {
+					present[o.Ident] = true
+				}
+				h.Ops = append(h.Ops, o)
+			}
+		}
 		if ticks && shortAdded && nticks < 2 && rapid.IntRange(0, 3).Draw(rt, "tick") == 0 {
 			h.Ops = append(h.Ops, c43Op{Kind: "tick", SleepMS: rapid.SampledFrom([]int{1100, 1100, 600}).Draw(rt, "sleep")})
 			nticks++
@@ -665,6 +711,17 @@ func c43Run(w *c43World, h *c43History, progress *atomic.Int64, slack time.Durat
 			if e2 := c43CheckRefLog(rig, op, id); e2 != nil {
 				return st, fail(i, op, e2)
 			}
+		case "parallel":
+			var extra func() c43SUT
+			if rig != nil {
+				extra = rig.extra
+			}
+			if e2 := c43Parallel(w, sut, extra, m, op, st); e2 != nil {
+				return st, fail(i, op, e2)
+			}
+			if rig != nil && rig.refSrv != nil {
+				rig.refSrv.TakeLog()
+			}
 		case "burst":
 			type res struct {
 				sig []byte
@@ -714,6 +771,169 @@ func c43Run(w *c43World, h *c43History, progress *atomic.Int64, slack time.Durat
 		}
 	}
 	return st, nil
+}
+
+// c43Parallel: the keyring is documented as safe for concurrent use, and one
+// client serves many callers.  Each goroutine runs a fixed script on an identity
+// that no other goroutine (and, for its private key, no other script) touches,
+// so every step has a result that does not depend on the interleaving: it is
+// computed from the abstract state (locked or not) before the goroutines start
+// and compared afterwards.  Listings may contain other goroutines' keys; they
+// must still be a subset of what can be held, with the right comments.
+func c43Parallel(w *c43World, main c43SUT, extra func() c43SUT, m *ref.AgentModel, op *c43Op, st *c43Stats) error {
+	type stepResult struct {
+		err  error
+		sig  []byte
+		list []ref.Listed
+	}
+	const nsteps = 9
+	results := make([][nsteps]stepResult, len(op.Par))
+	panics := make([]any, len(op.Par))
+	// Who talks to the agent: goroutine 0 (and, where the client is safe for
+	// concurrent callers, every even one) uses the history's own connection;
+	// the others get a connection of their own to the same agent, so that
+	// several ServeAgent goroutines work on one keyring at the same time.
+	suts := make([]c43SUT, len(op.Par))
+	concurrent := main.Concurrent()
+	for gi := range suts {
+		suts[gi] = main
+		if extra != nil && gi > 0 && (gi%2 == 1 || !main.Concurrent()) {
+			suts[gi] = extra()
+			concurrent = true
+		}
+	}
+	if !concurrent {
+		st.classes = append(st.classes, "parallel:run-sequentially")
+	}
+	run := func(gi int) {
+		defer func() {
+			if p := recover(); p != nil {
+				panics[gi] = p
+			}
+		}()
+		sut := suts[gi]
+		sc := op.Par[gi]
+		id := w.idents[sc.Ident]
+		r := &results[gi]
+		r[0].err = sut.Add(&c43Op{Kind: "add", Ident: sc.Ident, Comment: sc.Comment1, PtrForm: gi%2 == 0})
+		r[1].sig, r[1].err = sut.Sign(id, sc.Data, 0, gi%2 == 1, gi%3 == 0)
+		r[2].list, r[2].err = sut.List()
+		r[3].err = sut.Add(&c43Op{Kind: "add", Ident: sc.Ident, Comment: sc.Comment2})
+		r[4].list, r[4].err = sut.List()
+		r[5].err = sut.Remove(id, gi%2 == 0)
+		r[6].sig, r[6].err = sut.Sign(id, sc.Data, 0, true, false)
+		r[7].err = sut.Remove(id, false)
+		r[8].list, r[8].err = sut.List()
+	}
+	t0 := time.Now()
+	if concurrent {
+		var wg sync.WaitGroup
+		for gi := range op.Par {
+			wg.Add(1)
+			go func(gi int) { defer wg.Done(); run(gi) }(gi)
+		}
+		wg.Wait()
+	} else {
+		for gi := range op.Par {
+			run(gi)
+		}
+	}
+	t1 := time.Now()
+	// what may legitimately be listed during the phase
+	phase := map[string]c43ParScript{}
+	for _, sc := range op.Par {
+		phase[string(w.idents[sc.Ident].Blob)] = sc
+	}
+	checkList := func(gi, step int, l []ref.Listed, own []byte, wantOwn bool, wantComment string) error {
+		seen := map[string]bool{}
+		ownSeen := false
+		for _, k := range l {
+			if seen[string(k.Blob)] {
+				return violationf("goroutine %d step %d: identity listed twice", gi, step)
+			}
+			seen[string(k.Blob)] = true
+			if k.Format != ref.BlobType(k.Blob) {
+				return violationf("goroutine %d step %d: identity listed with format %q, its blob says %q", gi, step, k.Format, ref.BlobType(k.Blob))
+			}
+			if bytes.Equal(k.Blob, own) {
+				ownSeen = true
+				if k.Comment != wantComment {
+					return violationf("goroutine %d step %d: own key listed with comment %q, it was last added with %q (nobody else touches this key)", gi, step, k.Comment, wantComment)
+				}
+				continue
+			}
+			if sc, ok := phase[string(k.Blob)]; ok {
+				// (it may also still be there from before the phase, with its old comment)
+				old := m.Keys[string(k.Blob)]
+				if k.Comment != sc.Comment1 && k.Comment != sc.Comment2 && (old == nil || old.Comment != k.Comment) {
+					return violationf("goroutine %d step %d: another goroutine's key listed with comment %q, it is only ever added with %q or %q", gi, step, k.Comment, sc.Comment1, sc.Comment2)
+				}
+				continue
+			}
+			mk := m.Keys[string(k.Blob)]
+			if mk == nil {
+				return violationf("goroutine %d step %d: listed an identity nobody holds: %s comment %q", gi, step, k.Format, k.Comment)
+			}
+			if mk.Comment != k.Comment {
+				return violationf("goroutine %d step %d: untouched identity listed with comment %q, added with %q", gi, step, k.Comment, mk.Comment)
+			}
+		}
+		if ownSeen != wantOwn {
+			return violationf("goroutine %d step %d: own key listed=%v, want %v (nobody else touches this key)", gi, step, ownSeen, wantOwn)
+		}
+		return nil
+	}
+	for gi, sc := range op.Par {
+		if panics[gi] != nil {
+			return violationf("goroutine %d panicked: %v", gi, panics[gi])
+		}
+		id := w.idents[sc.Ident]
+		r := &results[gi]
+		if m.Locked {
+			for step := 0; step < nsteps; step++ {
+				isList := step == 2 || step == 4 || step == 8
+				if isList {
+					if r[step].err != nil || len(r[step].list) != 0 {
+						return violationf("goroutine %d step %d: a locked agent listed %d identities (err %v)", gi, step, len(r[step].list), r[step].err)
+					}
+				} else if r[step].err == nil {
+					return violationf("goroutine %d step %d: a locked agent accepted a request", gi, step)
+				}
+			}
+			continue
+		}
+		wantErr := [nsteps]bool{false, false, false, false, false, false, true, true, false}
+		names := [nsteps]string{"add", "sign", "list", "re-add", "list", "remove", "sign after remove", "remove after remove", "list"}
+		for step := 0; step < nsteps; step++ {
+			if (r[step].err != nil) != wantErr[step] {
+				return violationf("goroutine %d (%s) step %d (%s): got %v, want error=%v; no other goroutine touches this key", gi, id.Name, step, names[step], r[step].err, wantErr[step])
+			}
+		}
+		if e := c43CheckSig(id, sc.Data, r[1].sig, 0); e != nil {
+			return violationf("goroutine %d: %v", gi, e)
+		}
+		if e := checkList(gi, 2, r[2].list, id.Blob, true, sc.Comment1); e != nil {
+			return e
+		}
+		if e := checkList(gi, 4, r[4].list, id.Blob, true, sc.Comment2); e != nil {
+			return e
+		}
+		if e := checkList(gi, 8, r[8].list, id.Blob, false, ""); e != nil {
+			return e
+		}
+	}
+	if !m.Locked {
+		for _, sc := range op.Par {
+			m.Delete(w.idents[sc.Ident].Blob)
+		}
+		m.Purge(t0, t1)
+		st.note(fmt.Sprintf("P%d", len(op.Par)), fmt.Sprintf("parallel:n=%d", len(op.Par)), "parallel:unlocked")
+	} else {
+		st.note(fmt.Sprintf("P%d-lock", len(op.Par)), fmt.Sprintf("parallel:n=%d", len(op.Par)), "parallel:locked")
+	}
+	st.nontriv = true
+	st.evals += len(op.Par)*nsteps - 1
+	return nil
 }
 
 // c43CheckRefLog compares what the reference server decoded with what the
@@ -1150,8 +1370,9 @@ func TestC43(t *testing.T) {
 		return
 	}
 
-	// the histories with real sleeps, many at a time
-	c43RunBatch(t, c, dir, deferred, stall)
+	// the histories with real sleeps, many at a time; the directed ones come
+	// first and are part of every run whatever rapid drew
+	c43RunBatch(t, c, dir, append(c43DirectedTickHistories(), deferred...), stall)
 
 	// saved fuzz inputs are replayed in every run
 	c43ReplayCorpus(t, c, world)
@@ -1161,13 +1382,61 @@ func TestC43(t *testing.T) {
 	}
 }
 
+// c43DirectedTickHistories are fixed shapes around key lifetimes (several keys
+// expiring together, next to keys that stay, across a lock, after a replace or
+// a remove), instantiated with identities and modes that rotate with the shard.
+func c43DirectedTickHistories() []*c43History {
+	shard, _ := ev.Shard()
+	modes := []string{"direct", "client-pipeline", "client-serial", "raw"}
+	n := len(c43IdentNames)
+	add := func(i int, life uint32) c43Op {
+		return c43Op{Kind: "add", Ident: i, Comment: fmt.Sprintf("k%d", i), Lifetime: life}
+	}
+	sign := func(i int) c43Op { return c43Op{Kind: "sign", Ident: i, Data: []byte("directed"), Plain: true} }
+	tick := c43Op{Kind: "tick", SleepMS: 1100}
+	list := c43Op{Kind: "list"}
+	var out []*c43History
+	for ti := 0; ti < 12; ti++ {
+		x, y, z, u := (3*shard+ti)%n, (3*shard+ti+1)%n, (3*shard+ti+2)%n, (3*shard+ti+5)%n
+		var ops []c43Op
+		switch ti {
+		case 0:
+			ops = []c43Op{add(x, 1), add(y, 1), tick, sign(y), list}
+		case 1:
+			ops = []c43Op{add(x, 1), add(y, 1), add(z, 1), tick, list, sign(z)}
+		case 2:
+			ops = []c43Op{add(x, 1), add(y, 1), add(z, 0), tick, list, sign(y), sign(z)}
+		case 3:
+			ops = []c43Op{add(x, 1), add(y, 1), add(z, 0), tick, sign(y), list}
+		case 4:
+			ops = []c43Op{add(x, 1), add(y, 0), add(z, 1), add(u, 1), tick, {Kind: "signers", Data: []byte("d")}, sign(u), list}
+		case 5:
+			ops = []c43Op{add(x, 2), add(y, 1), add(z, 1), add(u, 3600), tick, sign(z), sign(x), list, tick, sign(x), list}
+		case 6:
+			ops = []c43Op{add(x, 1), add(y, 1), add(z, 1), add(x, 0), tick, list, sign(y), sign(x)}
+		case 7:
+			ops = []c43Op{add(x, 1), add(y, 1), add(z, 0), {Kind: "remove", Ident: x}, tick, list, sign(y)}
+		case 8:
+			ops = []c43Op{add(x, 1), add(y, 1), add(z, 0), {Kind: "lock", Pass: []byte("pw")}, tick, list, sign(y), {Kind: "unlock", Pass: []byte("pw")}, sign(y), list}
+		case 9:
+			ops = []c43Op{add(x, 1), add(y, 1), add(z, 1), add(u, 0), tick, {Kind: "remove", Ident: z}, {Kind: "remove", Ident: y}, list}
+		case 10:
+			ops = []c43Op{add(u, 0), add(x, 1), add(y, 1), add(z, 86400), tick, {Kind: "burst", Burst: []c43Burst{{Ident: y, Data: []byte("b")}, {Ident: z, Data: []byte("b")}, {Ident: u, Data: []byte("b")}}}, list}
+		default:
+			ops = []c43Op{add(x, 1), add(y, 2), add(z, 1), add(u, 2), {Kind: "tick", SleepMS: 600}, list, tick, list, sign(z), tick, list, sign(u)}
+		}
+		out = append(out, &c43History{Mode: modes[(ti+shard)%len(modes)], Seed: uint64(ti + 1), Ops: ops})
+	}
+	return out
+}
+
 // c43RunBatch runs the tick histories concurrently (each with its own copy of
 // the keys); wall time is that of the slowest history of each wave.
 func c43RunBatch(t *testing.T, c *ev.Collector, dir string, hs []*c43History, stall time.Duration) {
 	if len(hs) == 0 {
 		return
 	}
-	const wave = 48
+	const wave = 64
 	worlds := make([]*c43World, min(wave, len(hs)))
 	for i := range worlds {
 		w, err := newC43World()
